@@ -171,6 +171,16 @@ class TzInterp:
                         return Unknown('replace')
                 if isinstance(recv, Span) and f.attr == 'total_seconds':
                     return Seconds(recv.coef)
+                if isinstance(recv, DTv) and f.attr == 'timestamp' and \
+                        not e.args and not e.keywords:
+                    # datetime.timestamp(): for an aware value (instant -
+                    # epoch).total_seconds(); a naive one is read as local
+                    # time
+                    if not recv.aware:
+                        return Unknown('timestamp() of a possibly naive '
+                                       'datetime assumes local time')
+                    i = recv.instant()
+                    return Seconds((i[0], i[1], i[2], i[3] - 1))
                 if self._is_type(f.value) and f.attr == 'fromtimestamp':
                     kw = {k.arg: k.value for k in e.keywords}
                     tzarg = kw.get('tz') or (e.args[1] if len(e.args) > 1
